@@ -90,6 +90,11 @@ def evaluate(run, lines, meta, exe, drv):
                 if len(unhx(enc[1])) >= 2:
                     run.nontrivial_case(st + v)
                 run.sample({'schema': st, 'value': v[:200], 'bytes': enc[1][:80]})
+        # --- the other entry points of the round trip (to_avro_datum, write_value_to_vec, write_value; from_avro_datum*)
+        if len(t) > 5 and tag(t[5]) != 'skipped':
+            run.count('entry-points:' + show(t[5]))
+            if show(t[5]) != '(ok 1 1)':
+                run.fail('entry-points-differ', 'to_avro_datum / write_value_to_vec / write_value / from_avro_datum* do not behave like GenericDatumWriter::write_value_ref / GenericDatumReader::read_value: %s' % show(t[5]), case)
         # --- correspondence
         me = model.get(cid + 'e')
         if me is None or show(parse(me)) != show(enc):
